@@ -27,8 +27,8 @@ Next ==
     /\ i' = i + 1
     /\ LET ev == Trace[i]
            ex == Expected(ev)
-       IN \/ ex = ev.res
-          \/ PrintT(<<"EMIT", ToJson([bad |-> i, id |-> ev.id, op |-> ev.op, expected |-> ex, got |-> ev.res])>>)
+       IN IF ex = ev.res THEN TRUE
+          ELSE PrintT(<<"EMIT", ToJson([bad |-> i, id |-> ev.id, op |-> ev.op, expected |-> ex, got |-> ev.res])>>)
 
 Done == TLCGet("stats").diameter - 1 = Len(Trace)
 =============================================================================
